@@ -937,6 +937,12 @@ class SymCtx:
         return r, m
 
     def begin_path(self):
+        try:
+            from . import rt as _rt
+
+            _rt.reset_random_states()
+        except Exception:
+            pass
         self.depth = 0
         self.k = 0
         self.prefix = ()
